@@ -112,6 +112,9 @@ def body(cfg):
         ab = darsia.AdaptiveBalance()
         seq = x
         created = []
+        fitted_on = []
+        seq_src = src
+        stage_inputs_ok = []
         orig = {}
         for name in ("WhiteBalance", "ColorBalance", "AffineBalance"):
             orig[name] = getattr(cb, name)
@@ -121,17 +124,26 @@ def body(cfg):
                     def __init__(self):
                         super().__init__()
                         created.append(self)
+
+                    def find_balance(self, s_src, s_dst, *a, **k):
+                        fitted_on.append((np.array(s_src, copy=True), np.array(s_dst, copy=True)))
+                        return super().find_balance(s_src, s_dst, *a, **k)
                 return W
             setattr(cb, name, mk(orig[name]))
         try:
             for m in cfg["seq"]:
                 ab.find_balance(src, dst, mode=m)
+                # the stage was fitted on the sources as balanced by ALL earlier stages, against the destinations
+                s_in, d_in = fitted_on[-1]
+                stage_inputs_ok.append(S.and_(np.shape(s_in) == np.shape(seq_src), S.eq(s_in, seq_src) if np.shape(s_in) == np.shape(seq_src) else False, S.eq(d_in, dst)))
                 seq = created[-1].apply_balance(seq)
+                seq_src = created[-1].apply_balance(seq_src)
         finally:
             for name, v in orig.items():
                 setattr(cb, name, v)
         acc = ab.apply_balance(x)
         S.claim("accumulated_balance_equals_sequential_stage_balances", S.eq(acc, seq))
+        S.claim("every_stage_is_fitted_on_the_sources_balanced_by_the_earlier_stages", S.and_(stage_inputs_ok))
         S.claim("stage_classes_match_modes", [type(c).__bases__[0].__name__ for c in created] == [{"diagonal": "WhiteBalance", "linear": "ColorBalance", "affine": "AffineBalance"}[m] for m in cfg["seq"]])
         ab.reset()
         S.claim("reset_restores_identity", S.eq(ab.apply_balance(x), x))
